@@ -380,3 +380,18 @@ func lemmaOriginRoundTrip(p []byte) ([]byte, int) {
 //@   prop C07
 //@   requires !isnil(state) && !isnil(result)
 //@   loop 1: decreases depth - i
+//@ func QualifierParser$1(state *pars.State, result *pars.Result) (err error)
+//@   prop C07
+//@   requires !isnil(state) && !isnil(result) && len(valueParsers) == 3
+//@ func GetQualifierType(name string) (r QualifierType)
+//@   prop C07
+//@   ensures 0 <= int(r) && int(r) <= 3
+//@ func RegisterQuotedQualifier(names ...string)
+//@   trusted appends to a package-level registry and sorts it; the registries are process-global state outside the model (only the absence of panics in the caller is claimed)
+//@   assigns nothing
+//@ func RegisterLiteralQualifier(names ...string)
+//@   trusted appends to a package-level registry and sorts it; process-global state outside the model
+//@   assigns nothing
+//@ func RegisterToggleQualifier(names ...string)
+//@   trusted appends to a package-level registry and sorts it; process-global state outside the model
+//@   assigns nothing
